@@ -122,11 +122,16 @@ func (r *scopeRegistry) Report(reporter StatsReporter) {
 
 		for name, s := range subscopeBucket.s {
 			verifhook.YieldStr("registry.visit", name)
-			s.report(reporter)
+			// Read the flag before reporting: everything recorded before
+			// Close is then covered by this (final) report, and a scope that
+			// is closed while it is being reported is collected by the next
+			// pass instead of being dropped with unreported values.
+			closed := s.closed.Load()
 			verifhook.Yield("registry.pre-closed-read")
+			s.report(reporter)
 
-			if s.closed.Load() {
-				r.removeWithRLock(subscopeBucket, name)
+			if closed {
+				r.removeWithRLock(subscopeBucket, name, s)
 				s.clearMetrics()
 			}
 		}
@@ -145,11 +150,16 @@ func (r *scopeRegistry) CachedReport() {
 
 		for name, s := range subscopeBucket.s {
 			verifhook.YieldStr("registry.visit", name)
-			s.cachedReport()
+			// Read the flag before reporting: everything recorded before
+			// Close is then covered by this (final) report, and a scope that
+			// is closed while it is being reported is collected by the next
+			// pass instead of being dropped with unreported values.
+			closed := s.closed.Load()
 			verifhook.Yield("registry.pre-closed-read")
+			s.cachedReport()
 
-			if s.closed.Load() {
-				r.removeWithRLock(subscopeBucket, name)
+			if closed {
+				r.removeWithRLock(subscopeBucket, name, s)
 				s.clearMetrics()
 			}
 		}
@@ -217,8 +227,8 @@ func (r *scopeRegistry) Subscope(parent *scope, prefix string, tags map[string]s
 	// If a scope was found above but we didn't return, we need to remove the
 	// scope from both keys.
 	if ok {
-		r.removeWithRLock(subscopeBucket, unsanitizedKey)
-		r.removeWithRLock(subscopeBucket, sanitizedKey)
+		r.removeWithRLock(subscopeBucket, unsanitizedKey, s)
+		r.removeWithRLock(subscopeBucket, sanitizedKey, s)
 		s.clearMetrics()
 	}
 
@@ -315,7 +325,7 @@ func (r *scopeRegistry) purgeIfRootClosed() {
 	}
 }
 
-func (r *scopeRegistry) removeWithRLock(subscopeBucket *scopeBucket, key string) {
+func (r *scopeRegistry) removeWithRLock(subscopeBucket *scopeBucket, key string, s *scope) {
 	// n.b. This function must lock the registry for writing and return it to an
 	//      RLocked state prior to exiting. Defer order is important (LIFO).
 	subscopeBucket.mu.RUnlock()
@@ -324,7 +334,11 @@ func (r *scopeRegistry) removeWithRLock(subscopeBucket *scopeBucket, key string)
 	subscopeBucket.mu.Lock()
 	defer subscopeBucket.mu.Unlock()
 	verifhook.Yield("registry.remove.locked")
-	delete(subscopeBucket.s, key)
+	// The read lock was released above: by now the key may belong to a fresh
+	// scope created for the same identity. Only remove the scope we meant.
+	if cur, ok := subscopeBucket.s[key]; ok && cur == s {
+		delete(subscopeBucket.s, key)
+	}
 }
 
 // Records internal Metrics' cardinalities.
